@@ -1,6 +1,7 @@
 package checks
 
 import (
+	"bufio"
 	"bytes"
 	"fmt"
 	"io"
@@ -34,6 +35,52 @@ type encCase struct {
 	// FlushAfter[i] = number of Flush calls made after record i (0..2).
 	FlushAfter []int `json:"flush_after"`
 	ByPointer  bool  `json:"by_pointer"` // ReadFile's out argument is a *T instead of a T
+	// Reader: how the file is presented to ReadFile (see makeReader).
+	Reader int `json:"reader,omitempty"`
+}
+
+// shortReader delivers at most N bytes per Read call (a network stream, a pipe):
+// the reader must not assume that one Read fills its buffer.
+type shortReader struct {
+	data []byte
+	pos  int
+	max  int
+}
+
+func (r *shortReader) Read(p []byte) (int, error) {
+	if r.pos >= len(r.data) {
+		return 0, io.EOF
+	}
+	n := len(p)
+	if n > r.max {
+		n = r.max
+	}
+	if n > len(r.data)-r.pos {
+		n = len(r.data) - r.pos
+	}
+	copy(p, r.data[r.pos:r.pos+n])
+	r.pos += n
+	return n, nil
+}
+
+func (r *shortReader) ReadByte() (byte, error) {
+	if r.pos >= len(r.data) {
+		return 0, io.EOF
+	}
+	r.pos++
+	return r.data[r.pos-1], nil
+}
+
+// makeReader: 0 = bytes.Reader, 1 = bufio.Reader with a 16-byte buffer,
+// k >= 2 = a reader that returns at most k-1 bytes per call.
+func makeReader(kind int, data []byte) avro.Reader {
+	switch {
+	case kind <= 0:
+		return bytes.NewReader(data)
+	case kind == 1:
+		return bufio.NewReaderSize(bytes.NewReader(data), 16)
+	}
+	return &shortReader{data: data, max: kind - 1}
 }
 
 // dynEncoder is the public pipeline NewEncoderFor itself runs, assembled for a
@@ -155,6 +202,7 @@ func drawEncCase(t *rapid.T) encCase {
 		c.FlushAfter = append(c.FlushAfter, rapid.SampledFrom([]int{0, 0, 0, 0, 1, 1, 2}).Draw(t, "flush"))
 	}
 	c.ByPointer = rapid.Bool().Draw(t, "byPointer")
+	c.Reader = []int{0, 0, 1, 2, 4, 8}[gen.Uniform(t, "reader", 6)]
 	return c
 }
 
